@@ -31,10 +31,40 @@ TYPES = {
     "T": ("Text", "Text Referenz", "einen Text", '"ab€"', "ab€"),
     "LZ": ("Zahlen Liste", "Zahlen Listen Referenz", "eine Zahlen Liste", "eine Liste, die aus 4, 5, 6 besteht", "4,5,6,"),
     "LT": ("Text Liste", "Text Listen Referenz", "eine Text Liste", 'eine Liste, die aus "x", "yz" besteht', "x,yz,"),
+    "LK": ("Kommazahlen Liste", "Kommazahlen Listen Referenz", "eine Kommazahlen Liste", "eine Liste, die aus 1,5, 2,5 besteht", "1.500,2.500,"),
+    "LB": ("Byte Liste", "Byte Listen Referenz", "eine Byte Liste", "eine Liste, die aus (1 als Byte), (255 als Byte) besteht", "1,255,"),
+    "LW": ("Wahrheitswert Liste", "Wahrheitswert Listen Referenz", "eine Wahrheitswert Liste", "eine Liste, die aus wahr, falsch besteht", "1,0,"),
+    "LC": ("Buchstaben Liste", "Buchstaben Listen Referenz", "eine Buchstaben Liste", "eine Liste, die aus 'a', 'ä' besteht", "97,228,"),
     "S:Punkt": ("Punkt", "Punkt Referenz", "einen Punkt", '(mach_Punkt 3 "p")', "3/p"),
     "V": ("Variable", "Variablen Referenz", "eine Variable", "(77 als Variable)", "8:77"),
 }
 PRIM = ["Z", "K", "B", "W", "C"]
+# further argument values per kind: (DDP expression, what the C side prints, what DDP prints); value parameters get them as
+# expressions (computed Wahrheitswerte, boundary numbers, empty texts and lists), Referenz parameters through a variable
+VALUES = {
+    "Z": [("9223372036854775807", "9223372036854775807", "9223372036854775807"), ("(0 minus 9223372036854775807)", "-9223372036854775807", "-9223372036854775807"), ("0", "0", "0")],
+    "K": [("(0 minus 0,25)", "-0.250", "-0.25"), ("1000000,5", "1000000.500", "1000000.5")],
+    "B": [("(0 als Byte)", "0", "0"), ("(255 als Byte)", "255", "255")],
+    "W": [("falsch", "0", "falsch"), ("(nicht w_wahr)", "0", "falsch"), ("(nicht w_falsch)", "1", "wahr"), ("(z_eins gleich 2 ist)", "0", "falsch"),
+          ("(nicht (z_eins gleich 1 ist))", "0", "falsch"), ("(nicht (z_eins gleich 2 ist))", "1", "wahr"),
+          # results of DDP functions whose i1 result the optimiser computes arithmetically (only the lowest bit is defined)
+          ("(knifflig z_zwei z_53)", "1", "wahr"), ("(nicht (knifflig z_zwei z_53))", "0", "falsch"), ("(nicht (knifflig z_zwei 5))", "1", "wahr")],
+    "C": [("'a'", "97", "a"), ("'😀'", "128512", "😀")],
+    "T": [('""', "", ""), ('("a" verkettet mit "😀")', "a😀", "a😀")],
+    "LZ": [("eine leere Zahlen Liste", "", "[]")],
+    "LT": [("eine leere Text Liste", "", "[]")],
+    "LK": [("eine leere Kommazahlen Liste", "", "[]")],
+    "LW": [("eine Liste, die aus (nicht w_wahr), (nicht w_falsch) besteht", "0,1,", "[falsch,wahr,]"),
+           ("eine Liste, die aus (nicht (knifflig z_zwei z_53)), (knifflig z_zwei z_53) besteht", "0,1,", "[falsch,wahr,]")],
+}
+GLOBALS = ("Der Wahrheitswert w_wahr ist wahr.\nDer Wahrheitswert w_falsch ist falsch.\nDie Zahl z_eins ist 1.\nDie Zahl z_zwei ist 2.\nDie Zahl z_53 ist 53.\n"
+           "Die Funktion ziffer mit dem Parameter z vom Typ Zahl, gibt einen Wahrheitswert zurück, macht:\n"
+           "\tGib wahr, wenn z größer als, oder 48 ist und z kleiner als, oder 57 ist, zurück.\nUnd kann so benutzt werden:\n\t\"ziffer <z>\"\n\n"
+           "Die Funktion knifflig mit den Parametern n und z vom Typ Zahl und Zahl, gibt einen Wahrheitswert zurück, macht:\n"
+           "\tWenn n kleiner als 1 ist, gib falsch zurück.\n\tWenn n kleiner als 2 ist oder nicht (ziffer z), gib falsch zurück.\n\tGib wahr zurück.\n"
+           "Und kann so benutzt werden:\n\t\"knifflig <n> <z>\"\n\n")
+ELEM = {"LZ": ("Z", "jede Zahl", '"%lld,", (long long)'), "LK": ("K", "jede Kommazahl", '"%.3f,", '), "LB": ("B", "jeden Byte", '"%u,", (unsigned)'),
+        "LW": ("W", "jeden Wahrheitswert", '"%d,", (int)'), "LC": ("C", "jeden Buchstaben", '"%d,", (int)')}
 
 
 def c_print(code, expr, deref):
@@ -52,8 +82,8 @@ def c_print(code, expr, deref):
         return 'printf("%%d;", (int)%s);' % v
     if code == "T":
         return 'printf("%%s;", %s->str ? %s->str : "");' % (expr, expr)
-    if code == "LZ":
-        return 'for (ddpint i = 0; i < %s->len; i++) printf("%%lld,", (long long)%s->arr[i]); printf(";");' % (expr, expr)
+    if code in ELEM:
+        return 'for (ddpint i = 0; i < %s->len; i++) printf(%s%s->arr[i]); printf(";");' % (expr, ELEM[code][2], expr)
     if code == "LT":
         return 'for (ddpint i = 0; i < %s->len; i++) printf("%%s,", %s->arr[i].str ? %s->arr[i].str : ""); printf(";");' % (expr, expr, expr)
     if code == "S:Punkt":
@@ -79,6 +109,14 @@ def c_mutate(code, expr):
         return "ddp_free_string(%s); set_text(%s, \"neu\");" % (expr, expr), "neu"
     if code == "LZ":
         return "if (%s->len > 0) %s->arr[0] = 99;" % (expr, expr), "[99,5,6,]"
+    if code == "LK":
+        return "if (%s->len > 0) %s->arr[0] = 0.5;" % (expr, expr), "[0.5,2.5,]"
+    if code == "LB":
+        return "if (%s->len > 0) %s->arr[0] = 9;" % (expr, expr), "[9,255,]"
+    if code == "LW":
+        return "if (%s->len > 1) %s->arr[1] = true;" % (expr, expr), "[wahr,wahr,]"
+    if code == "LC":
+        return "if (%s->len > 0) %s->arr[0] = 0x20AC;" % (expr, expr), "[€,ä,]"
     if code == "LT":
         return "if (%s->len > 1) { ddp_free_string(&%s->arr[1]); set_text(&%s->arr[1], \"c\"); }" % (expr, expr, expr), "[x,c,]"
     if code == "S:Punkt":
@@ -102,6 +140,10 @@ def c_return(code):
         return 'set_text(ret, "zurück");', "zurück"
     if code == "LZ":
         return "ret->len = 2; ret->cap = 2; ret->arr = ddp_reallocate(NULL, 0, 2 * sizeof(ddpint)); ret->arr[0] = 10; ret->arr[1] = -20;", "[10,-20,]"
+    if code in ("LK", "LB", "LW", "LC"):
+        ct, v0, v1, shown = {"LK": ("ddpfloat", "0.25", "-1.5", "[0.25,-1.5,]"), "LB": ("ddpbyte", "3", "254", "[3,254,]"),
+                             "LW": ("ddpbool", "false", "true", "[falsch,wahr,]"), "LC": ("ddpchar", "'z'", "0x1F600", "[z,😀,]")}[code]
+        return ("ret->len = 2; ret->cap = 2; ret->arr = ddp_reallocate(NULL, 0, 2 * sizeof(%s)); ret->arr[0] = %s; ret->arr[1] = %s;" % (ct, v0, v1), shown)
     if code == "LT":
         return ("ret->len = 2; ret->cap = 2; ret->arr = ddp_reallocate(NULL, 0, 2 * sizeof(ddpstring)); set_text(&ret->arr[0], \"r1\"); set_text(&ret->arr[1], \"\");", "[r1,,]")
     if code == "S:Punkt":
@@ -115,8 +157,8 @@ def ddp_print(code, expr):
     """DDP statements printing a value of the type on one line, in the format of the expectations"""
     if code in ("Z", "K", "B", "W", "C", "T"):
         return "Schreibe %s auf eine Zeile.\n" % expr
-    if code == "LZ":
-        return 'Schreibe "[".\nFür jede Zahl el in %s, mache:\n\tSchreibe el.\n\tSchreibe ",".\nSchreibe "]" auf eine Zeile.\n' % expr
+    if code in ELEM:
+        return 'Schreibe "[".\nFür %s el in %s, mache:\n\tSchreibe el.\n\tSchreibe ",".\nSchreibe "]" auf eine Zeile.\n' % (ELEM[code][1], expr)
     if code == "LT":
         return 'Schreibe "[".\nFür jeden Text el in %s, mache:\n\tSchreibe el.\n\tSchreibe ",".\nSchreibe "]" auf eine Zeile.\n' % expr
     if code == "S:Punkt":
@@ -126,7 +168,8 @@ def ddp_print(code, expr):
     raise ValueError(code)
 
 
-DDP_UNCHANGED = {"Z": "41", "K": "2.5", "B": "200", "W": "wahr", "C": "ä", "T": "ab€", "LZ": "[4,5,6,]", "LT": "[x,yz,]", "S:Punkt": "3/p", "V": "77"}
+DDP_UNCHANGED = {"Z": "41", "K": "2.5", "B": "200", "W": "wahr", "C": "ä", "T": "ab€", "LZ": "[4,5,6,]", "LT": "[x,yz,]", "S:Punkt": "3/p", "V": "77",
+                 "LK": "[1.5,2.5,]", "LB": "[1,255,]", "LW": "[wahr,falsch,]", "LC": "[a,ä,]"}
 
 
 def gen_function(rng, idx):
@@ -137,18 +180,22 @@ def gen_function(rng, idx):
         code = codes[rng.below(len(codes))]
         ref = rng.below(100) < 35 and code != "V"
         params.append(("p%d" % k, code, ref))
-    ret = (codes[:-1] + ["N"])[rng.below(len(codes))]
-    return ("ext_fn%d" % idx, params, ret)
+    rets = [c for c in codes if c != "V"] + ["N"]
+    ret = rets[rng.below(len(rets))]
+    # value parameters: which of the further argument values (0 = the standard one through a variable)
+    vals = [0 if r or c not in VALUES or rng.below(2) == 0 else 1 + rng.below(len(VALUES[c])) for _, c, r in params]
+    return ("ext_fn%d" % idx, params, ret, vals)
 
 
 def build_case(model, fns):
     """DDP source, C source, expected stdout for a list of function signatures"""
     reqs = []
-    for name, params, ret in fns:
+    fns = [(f[0], f[1], f[2], f[3], f[4] if len(f) > 4 else None) for f in fns]
+    for name, params, ret, _vals, _mode in fns:
         reqs.append("abi %s %s %s" % (name, ret, " ".join("%s:%d" % (c, 1 if r else 0) for _, c, r in params)))
     protos = corr.run_lines(model, reqs)
     c_src, ddp_decl, ddp_main, exp = CHEAD, "", "", ""
-    for (name, params, ret), proto in zip(fns, protos):
+    for (name, params, ret, vals, mode), proto in zip(fns, protos):
         # the prototype of the model has no parameter names: add them in order
         head, args = proto[:proto.index("(")], proto[proto.index("(") + 1:-1]
         arg_types = [a.strip() for a in args.split(",")] if args != "void" else []
@@ -157,12 +204,15 @@ def build_case(model, fns):
         c_src += '\tprintf("%s:");\n' % name
         line = name + ":"
         after = []
-        for pn, code, ref in params:
+        for (pn, code, ref), vi in zip(params, vals):
             is_ptr = ref or code not in PRIM
             c_src += "\t" + c_print(code, pn, ref) + "\n"
-            line += TYPES[code][4] + ";"
+            line += (TYPES[code][4] if vi == 0 else VALUES[code][vi - 1][1]) + ";"
+        if mode == "same-variable":
+            c_src += '\tprintf("same:%d;", (void *)p0 == (void *)p1);\n'
+            line += "same:1;"
         for pn, code, ref in params:
-            if ref:
+            if ref and not (mode == "same-variable" and pn != "p0"):
                 mut, shown = c_mutate(code, pn)
                 c_src += "\t" + mut + "\n"
         c_src += '\tprintf("\\n");\n\tfflush(stdout);\n'
@@ -182,9 +232,16 @@ def build_case(model, fns):
         # the call: every argument is a variable, printed afterwards
         body = ""
         args_src = []
-        for pn, code, ref in params:
+        for (pn, code, ref), vi in zip(params, vals):
             var = "%s_%s" % (name, pn)
-            art = {"Z": "Die", "K": "Die", "B": "Der", "W": "Der", "C": "Der", "T": "Der", "LZ": "Die", "LT": "Die", "S:Punkt": "Der", "V": "Die"}[code]
+            if mode == "same-variable" and pn != "p0":
+                args_src.append("%s_p0" % name)
+                continue
+            if vi:
+                e = VALUES[code][vi - 1][0]
+                args_src.append("(%s)" % e if " " in e and not e.startswith("(") else e)       # an expression (a temporary), not a variable
+                continue
+            art = {"Z": "Die", "K": "Die", "B": "Der", "W": "Der", "C": "Der", "T": "Der", "S:Punkt": "Der", "V": "Die"}.get(code, "Die")
             lit = TYPES[code][3]
             if code == "W":
                 body += "Der Wahrheitswert %s ist wahr.\n" % var
@@ -196,19 +253,21 @@ def build_case(model, fns):
         if ret == "N":
             body += call + ".\n"
         else:
-            art = {"Z": "Die", "K": "Die", "B": "Der", "W": "Der", "C": "Der", "T": "Der", "LZ": "Die", "LT": "Die", "S:Punkt": "Der"}[ret]
+            art = {"Z": "Die", "K": "Die", "B": "Der", "W": "Der", "C": "Der", "T": "Der", "S:Punkt": "Der"}.get(ret, "Die")
             if ret == "W":
                 body += "Der Wahrheitswert %s_r ist wahr, wenn %s.\n" % (name, call)
             else:
                 body += "%s %s %s_r ist %s.\n" % (art, TYPES[ret][0], name, call)
             body += ddp_print(ret, "%s_r" % name)
             exp += rshown + "\n"
-        for pn, code, ref in params:
+        for (pn, code, ref), vi in zip(params, vals):
+            if vi or (mode == "same-variable" and pn != "p0"):
+                continue
             var = "%s_%s" % (name, pn)
             body += ddp_print(code, var)
             exp += (c_mutate(code, pn)[1] if ref else DDP_UNCHANGED[code]) + "\n"
         ddp_main += body
-    return HEAD + ddp_decl + ddp_main, c_src, exp
+    return HEAD + ddp_decl + GLOBALS + ddp_main, c_src, exp
 
 
 def check(res, tier):
@@ -228,19 +287,39 @@ def check(res, tier):
             idx += 1
             fns.append(gen_function(rng, idx))
         src, csrc, exp = build_case(model, fns)
-        cases.append((fns, src, csrc, exp))
-        for name, params, ret in fns:
+        cases.append((fns, src, csrc, exp, False))
+        for name, params, ret, vals in fns:
             st["ret:" + ret] += 1
+            st["computed-arguments"] += sum(1 for v in vals if v)
             for _, c, r in params:
                 st["param:%s:%s" % (c, "ref" if r else "value")] += 1
+    # systematic part: every kind as value parameter with every argument form, as Referenz parameter and as result
+    sysfns = []
+    for code in TYPES:
+        for vi in range(0, 1 + len(VALUES.get(code, []))):
+            idx += 1
+            sysfns.append(("ext_fn%d" % idx, [("p0", code, False)], "N", [vi]))
+        if code != "V":
+            idx += 1
+            sysfns.append(("ext_fn%d" % idx, [("p0", code, True)], "N", [0]))
+            idx += 1
+            sysfns.append(("ext_fn%d" % idx, [("p0", "Z", False)], code, [0]))
+            # the same variable behind two Referenz parameters: both pointers are the caller's storage
+            idx += 1
+            sysfns.append(("ext_fn%d" % idx, [("p0", code, True), ("p1", code, True)], "N", [0, 0], "same-variable"))
+    for i in range(0, len(sysfns), 12):
+        fns = sysfns[i:i + 12]
+        src, csrc, exp = build_case(model, fns)
+        cases.append((fns, src, csrc, exp, True))
     cfgs = [pipeline.Config(opt=1, ledger=True), pipeline.Config(opt=1, asan=True)] if quick else \
         [pipeline.Config(opt=0, ledger=True), pipeline.Config(opt=2, ledger=True), pipeline.Config(opt=1, asan=True)]
-    for fns, src, csrc, exp in cases:
-        for cfg in cfgs:
+    sys_cfgs = [pipeline.Config(opt=0, ledger=True), pipeline.Config(opt=2, ledger=True), pipeline.Config(opt=1, asan=True)]
+    for fns, src, csrc, exp, systematic in cases:
+        for cfg in (sys_cfgs if systematic else cfgs):
             r = pipeline.compile_run(ddp, {"main.ddp": src, "ext.c": csrc}, cfg, extra_c=["ext.c"], timeout=20)
             res.evaluations += 1
             st["%s:%s" % (cfg.name(), r.cls)] += 1
-            res.nontrivial(str([(n, tuple(p), t) for n, p, t in fns])[:200])
+            res.nontrivial(str([(f[0], tuple(f[1]), f[2]) for f in fns])[:200])
             why = None
             if r.cls != "ok":
                 why = "the program with foreign functions ended as %s: %s" % (r.cls, (r.stderr or r.compile_out)[-300:])
@@ -256,10 +335,11 @@ def check(res, tier):
             if why and len(res.violations) < 5:
                 res.violation("ffi:%s:%s" % (cfg.name(), hash(src) % 10 ** 8), why,
                               {"files": {"main.ddp": src, "ext.c": csrc}, "program": src, "expected_stdout": exp, "config": cfg.name(), "implementation": r.as_dict(),
-                               "signatures": [[n, [list(p) for p in ps], t] for n, ps, t in fns]})
+                               "signatures": [[f[0], [list(p) for p in f[1]], f[2]] for f in fns]})
     evalcorr.report_broken(res, broken)
     res.extra.update({"programs": len(cases), "functions": idx, "configs": [c.name() for c in cfgs], "statistics": dict(sorted(st.items()))})
-    res.rule = ("random foreign signatures (1-3 parameters of 10 kinds, value or Referenz, 10 result kinds incl. none): the C prototype comes "
+    res.rule = ("random foreign signatures (1-3 parameters of 14 kinds incl. lists of every primitive element type, value or Referenz, 14 result kinds "
+                "incl. none; value arguments also as computed expressions: negated and compared Wahrheitswerte, boundary numbers, empty texts and lists): the C prototype comes "
                 "from the Lean model, the C body uses the published headers only; what the callee prints (received representation), the "
                 "result and every argument variable after the call (unchanged for value parameters, changed for Referenz) are compared; "
                 "the heap ledger must close with nothing live and no contract violation; AddressSanitizer run")
